@@ -648,3 +648,46 @@ func rulePAT8(p *Program) *RuleResult {
 	r.floor("operations", 4)
 	return r
 }
+
+// PAT9: the element being replaced is not a data source for its replacement:
+// the patch package never copies or merges an existing message (proto.Merge /
+// proto.Clone / Range over its fields) — new elements are built from the
+// supplied value only, so a Replace substitutes the whole element.
+func rulePAT9(p *Program) *RuleResult {
+	r := newResult("PAT9")
+	forbidden := map[string]bool{
+		"google.golang.org/protobuf/proto.Merge": true, "google.golang.org/protobuf/proto.Clone": true,
+		"google.golang.org/protobuf/proto.CloneOf": true,
+	}
+	n := 0
+	for _, fn := range p.RepoFuncs() {
+		if !strings.HasSuffix(fnPkgPath(fn), "/fhirpath/patch") || len(fn.Blocks) == 0 {
+			continue
+		}
+		n++
+		for _, b := range fn.Blocks {
+			for _, ins := range b.Instrs {
+				c, ok := ins.(ssa.CallInstruction)
+				if !ok {
+					continue
+				}
+				name := ""
+				if sc := c.Common().StaticCallee(); sc != nil {
+					name = sc.RelString(nil)
+				} else if c.Common().IsInvoke() && c.Common().Method.Name() == "Range" && strings.HasSuffix(typeShort(c.Common().Value.Type()), "protoreflect.Message") {
+					name = "protoreflect.Message.Range"
+				}
+				if forbidden[name] || name == "protoreflect.Message.Range" {
+					r.bad(short(fn)+"|"+shortName(name), short(fn)+" calls "+shortName(name), p.instrPos(ins),
+						"content of an existing element (id, extension, other fields) can leak into the element that replaces it: the target is only partially substituted")
+				}
+			}
+		}
+	}
+	r.count("patch_functions", n)
+	if len(r.Obs) == 0 {
+		r.ok("patch|no-merge", fmt.Sprintf("none of the %d patch functions copies or merges an existing message", n), "fhirpath/patch", "call inventory (proto.Merge, proto.Clone, Message.Range)", true)
+	}
+	r.floor("patch_functions", 20)
+	return r
+}
